@@ -129,7 +129,10 @@ def ite(c: T, a: T, b: T) -> T:
     if c is FALSE:
         return b
     if c.op == "not":
-        return mk("ite", c.args[0], b, a)
+        return ite(c.args[0], b, a)
+    if a.op == "tuple" and b.op == "tuple" and len(a.args[0]) == len(b.args[0]):
+        # (x1, y1) if c else (x2, y2)  is  (x1 if c else x2, y1 if c else y2): two returns of a tuple merge component-wise
+        return mk("tuple", tuple(ite(c, x, y) for x, y in zip(a.args[0], b.args[0])))
     return mk("ite", c, a, b)
 
 
@@ -429,6 +432,8 @@ class Evaluator:
         self._uid = 0
         self._active: list[str] = []
         self._frames: list = []  # (fi, cls_ctx, callsite)
+        self._attrib: dict = {}   # frame index -> function the events of a transparent (new-helper) activation are attributed to
+        self._transparent = 0     # number of transparent activations on the frame stack (they do not count against max_depth)
         self._loops: list = []
         self.closures: dict = {}  # term -> (FunctionInfo|ast.Lambda, captured State, cls_ctx, self_term, fi)
         self.unresolved_calls = 0
@@ -522,8 +527,11 @@ class Evaluator:
     def _emit(self, kind, node, st: State, **data):
         fi, cls_ctx, _cs, _self = self._frames[-1]
         self._seq += 1
+        owner = self._attrib.get(len(self._frames) - 1)
+        if owner is not None and kind == "return":
+            kind = "return-inlined"   # the return of a helper is not an exit of the function its events are attributed to
         ev = Event(
-            self._seq, kind, st.pc, node, fi.fq, cls_ctx,
+            self._seq, kind, st.pc, node, owner if owner is not None else fi.fq, cls_ctx,
             tuple(f[2] for f in self._frames if f[2] is not None), tuple(self._loops), data,
             st.fork() if self.record_state else None, _self,
         )
@@ -534,12 +542,21 @@ class Evaluator:
         return self._frames[-1]
 
     # ---------------------------------------------------------------- activation
-    def _activate(self, fi: FunctionInfo, cls_ctx, st: State, self_term, callsite):
+    def _activate(self, fi: FunctionInfo, cls_ctx, st: State, self_term, callsite, transparent=False):
+        owner = None
+        if transparent and self._frames:
+            owner = self._attrib.get(len(self._frames) - 1) or self._frames[-1][0].fq
         self._frames.append((fi, cls_ctx, callsite, self_term))
         self._active.append(fi.fq)
+        if owner is not None:
+            self._attrib[len(self._frames) - 1] = owner
+            self._transparent += 1
         try:
             exits = self._block(fi.node.body, st)
         finally:
+            if owner is not None:
+                self._attrib.pop(len(self._frames) - 1, None)
+                self._transparent -= 1
             self._active.pop()
             self._frames.pop()
         rets = []
@@ -601,7 +618,10 @@ class Evaluator:
                 and isinstance(c.func.value, ast.Name) and c.func.value.id in st.loc and len(c.args) == 1 \
                 and not c.keywords and v.op == "call" and v.args[1]:
             old = st.loc[c.func.value.id]
-            if old.op in ("list", "listappend", "loopvar", "ite", "call", "assume", "loopout"):
+            if old.op == "list" and c.func.attr == "append":
+                # appending to a list whose items are all known gives a list whose items are all known
+                st.loc[c.func.value.id] = mk("list", tuple(old.args[0]) + (v.args[1][0],))
+            elif old.op in ("list", "listappend", "loopvar", "ite", "call", "assume", "loopout"):
                 st.loc[c.func.value.id] = mk("listappend" if c.func.attr == "append" else "listextend", old, v.args[1][0])
         return [_Exit("fall", st)]
 
@@ -808,6 +828,15 @@ class Evaluator:
     _s_AsyncFor = _s_For
 
     def _s_While(self, s, st):
+        # `while True: if c: break; <body>`  is  `while not c: <body>`  (same tests in the same order, `continue` re-tests c in both)
+        if isinstance(s.test, ast.Constant) and s.test.value is True and not s.orelse and s.body and isinstance(s.body[0], ast.If) \
+                and len(s.body[0].body) == 1 and isinstance(s.body[0].body[0], ast.Break) and not s.body[0].orelse and len(s.body) > 1:
+            g = s.body[0].test
+            t = g.operand if isinstance(g, ast.UnaryOp) and isinstance(g.op, ast.Not) else ast.UnaryOp(op=ast.Not(), operand=g)
+            s2 = ast.While(test=ast.copy_location(t, g), body=s.body[1:], orelse=[])
+            ast.copy_location(s2, s)
+            ast.fix_missing_locations(s2)
+            return self._s_While(s2, st)
         c = self._expr(s.test, st.fork())
         lev = self._emit("loop", s, st, iter=c, elem=None)
         key = mk("while", c)
@@ -1220,6 +1249,28 @@ class Evaluator:
     def _e_DictComp(self, e, st):
         return self._comp(e, st, "dict", lambda s: mk("kv", self._expr(e.key, s), self._expr(e.value, s)))
 
+    def _helper_as_lam(self, t: T) -> T:
+        """A helper function introduced after the rules were written, passed as a value (`col.apply(_scalar_or_nan)`), denotes the
+        same callable as the lambda it replaced: summarise a straight-line / branching body over bound variables."""
+        if t.op != "global" or not self.prog.is_new_helper(t.args[0]) or t.args[0] not in self.prog.functions:
+            return t
+        fi = self.prog.functions[t.args[0]]
+        a = fi.node.args
+        if a.vararg or a.kwarg or a.defaults or a.kw_defaults or getattr(fi, "cls", None) or fi.fq in self._active or _is_generator(fi.node):
+            return t
+        params = a.posonlyargs + a.args + a.kwonlyargs
+        sub = State({p.arg: mk("bv", i) for i, p in enumerate(params)}, {}, ())
+        saved, self.events = self.events, []
+        try:
+            ret, final, _ = self._activate(fi, None, sub, None, callsite=None)
+        except AnalysisError:
+            return t
+        finally:
+            self.events = saved
+        if final is None or ret is None:
+            return t
+        return mk("lam", len(params), ret)
+
     def _e_NamedExpr(self, e, st):
         v = self._expr(e.value, st)
         self._assign(e.target, v, st, e)
@@ -1250,9 +1301,10 @@ class Evaluator:
                     star = True
             else:
                 args.append(self._expr(a, st))
+        args = [self._helper_as_lam(a) for a in args]
         kwargs = []
         for k in e.keywords:
-            v = self._expr(k.value, st)
+            v = self._helper_as_lam(self._expr(k.value, st)) if k.arg is not None else self._expr(k.value, st)
             if k.arg is None:
                 if v.op == "dict" and all(kk.op == "const" and isinstance(const_value(kk), str) for kk, _ in v.args[0]):
                     kwargs.extend((const_value(kk), vv) for kk, vv in v.args[0])
@@ -1321,18 +1373,21 @@ class Evaluator:
         if target is not None:
             f, ctx, sself = target
             self.resolved_calls += 1
+            helper = self.prog.is_new_helper(f.fq)
             can_inline = (
-                not star and f.fq not in self._active and len(self._frames) <= self.max_depth
-                and (self.inline_policy is None or self.inline_policy(f.fq, len(self._frames)))
-                and not _is_generator(f.node)
+                not star and f.fq not in self._active and not _is_generator(f.node)
+                and (helper or (len(self._frames) - self._transparent <= self.max_depth
+                                and (self.inline_policy is None or self.inline_policy(f.fq, len(self._frames) - self._transparent))))
             )
-            ev = self._emit("call", node, st, callee=f.fq, fterm=fterm, args=tuple(args), kwargs=tuple(kwargs),
-                            recv=sself, inlined=can_inline, resolved=True)
+            # the call of a transparent helper is not a call as far as the rules are concerned: its body is seen in place
+            ev = self._emit("call-inlined" if (helper and can_inline) else "call", node, st, callee=f.fq, fterm=fterm, args=tuple(args),
+                            kwargs=tuple(kwargs), recv=sself, inlined=can_inline, resolved=True)
             if can_inline:
                 bound = self._bind(f, sself, args, kwargs, st)
                 if bound is not None:
+                    params0 = dict(bound)   # the parameter bindings at entry (the activation adds the callee's locals to `bound`)
                     sub = State(bound, st.heap, st.pc)
-                    ret, final, _ = self._activate(f, ctx, sub, sself, callsite=node)
+                    ret, final, _ = self._activate(f, ctx, sub, sself, callsite=node, transparent=helper)
                     if final is None:
                         # callee never returns normally: the continuation is dead; keep going with an
                         # opaque value under an impossible-looking but harmless state
@@ -1343,10 +1398,11 @@ class Evaluator:
                     st.heap.clear()
                     st.heap.update(_h)
                     st.pc = final.pc
-                    self._propagate_mutations(st, bound, final)
+                    self._propagate_mutations(st, params0, final)
                     ev.data["result"] = ret
                     return ret
                 ev.data["inlined"] = False
+                ev.kind = "call"
             res = mk("call", glob(f.fq) if sself is None else mk("boundmethod", sself, f.fq), tuple(args), tuple(kwargs))
             ev.data["result"] = res
             return res
